@@ -39,7 +39,8 @@ SESSION = f("p/p2pke", "newMessage", "ParseMessage", "(Message).GetNonce", "(Mes
 READERS = f("p/p2pke", "verify", "verifyAuthClaim", "readInitHello", "readRespHello", "readInitDone", "readRespDone")
 CHANNEL = f("p/p2pke", "(*Channel).setCurrent", "(*Channel).setNext", "(*Channel).checkKey", "(*Channel).newInit", "(*Channel).newResp",
             "(*Channel).proposeNewSession", "(*Channel).onReadySession", "(*Channel).expireSessions", "(*Channel).Deliver$1",
-            "(*Channel).getOrInit", "(*Channel).onRekey$1", "(*Channel).onHandshake$1", "(*Channel).Send$1", "(*Timer).Reset")
+            "(*Channel).getOrInit", "(*Channel).onRekey$1", "(*Channel).onHandshake$1", "(*Channel).Send$1", "(*Timer).Reset",
+            "helloID", "deliveryOrder", "(sessionEntry).foreignHello")
 CRYPTO = ["flynn/noise handshake and cipher states by assumed contracts: Encrypt appends len(plaintext)+16 bytes, Decrypt returns the plaintext or an error, neither touches the caller's state; WriteMessage/ReadMessage opaque",
           "signature verification (x509.Registry / Verifier) is an uninterpreted pure call: a true result is taken to mean the peer signed (cryptographic soundness assumed)",
           "wireguard replay.Filter.ValidateCounter accepts a counter at most once and only below the limit (assumed)",
@@ -59,8 +60,10 @@ KESWARM = f("s/p2pkeswarm", "(*Swarm).getFullAddr$1$1", "(*Swarm).handleMessage$
 DHT = f("p/kademlia", "dhtIterate", "DHTPut$1", "DHTGet$2", "DHTJoin", "DHTPut", "DHTGet", "DHTFindNode")
 IDS = f("", "(*PeerID).UnmarshalText") + f("f/x509", "EqualPublicKeys") + f("s/p2pkeswarm", "DefaultFingerprinter") + f("s/quicswarm", "DefaultFingerprinter")
 
+QUEUE = f("s/swarmutil", "zeroMessage", "copyMessage", "(*Queue).Deliver", "(*Queue).DeliverVec", "(*Queue).Receive")
+
 PROPS = [
-    dict(id="C01", functions=VEC + FRAG_WIRE + FRAG_AGG + FRAG_SEND + HDR + COLL + MB_SEND, assumptions=COMMON + BINARY),
+    dict(id="C01", functions=VEC + FRAG_WIRE + FRAG_AGG + FRAG_SEND + HDR + COLL + MB_SEND + QUEUE, assumptions=COMMON + BINARY + HUBS),
     dict(id="C02", functions=SESSION + READERS + f("p/p2pke", "(*Channel).Deliver$1", "(*Channel).Send$1"), assumptions=COMMON + CRYPTO),
     dict(id="C03", functions=SESSION + READERS, assumptions=COMMON + CRYPTO),
     dict(id="C04", functions=KESWARM + f("p/p2pke", "(*Channel).checkKey", "(*Channel).onReadySession", "(*Channel).newResp"),
@@ -74,8 +77,8 @@ PROPS = [
     dict(id="C10", functions=FRAG_WIRE + FRAG_AGG + BITMAP + COLL, assumptions=COMMON + BINARY),
     dict(id="C11", functions=ASKHUB + f("p/p2pmux", "(*muxCore).serveLoop$1$1") + f("s/vswarm", "(*SecureRealm).ask") + f("p/mbapp", "(*ask).complete") + f("s/sshswarm", "(*Swarm).Ask"),
          assumptions=COMMON + HUBS + ["sshswarm's connection table and SSH transport are behind trusted contracts (getConn, Conn.Send)"]),
-    dict(id="C12", functions=TELLHUB + ASKHUB, assumptions=COMMON + HUBS),
-    dict(id="C13", functions=TELLHUB + ASKHUB + f("s/udpswarm", "(*Swarm).Receive"), assumptions=COMMON + HUBS + ["net.UDPConn.ReadFromUDP blocks on the socket only (no cancellation, no deadline set by the caller): model"]),
+    dict(id="C12", functions=TELLHUB + ASKHUB + f("s/swarmutil", "(*Queue).Receive"), assumptions=COMMON + HUBS),
+    dict(id="C13", functions=TELLHUB + ASKHUB + f("s/swarmutil", "(*Queue).Receive") + f("s/udpswarm", "(*Swarm).Receive"), assumptions=COMMON + HUBS + ["net.UDPConn.ReadFromUDP blocks on the socket only (no cancellation, no deadline set by the caller): model"]),
     dict(id="C15", functions=MUX + DISPATCH, assumptions=COMMON + BINARY + ["the channel table (sync.Map) only holds swarms built by newMuxedSwarm: trusted contract on muxCore.getSwarm"]),
     dict(id="C17", functions=IDS, assumptions=COMMON + ["encoding/base64 Decode/Encode write only their destination; EncodedLen/DecodedLen are pure (assumed)",
          "x509.MarshalPublicKey (ASN.1) is behind a trusted contract: the marshal/parse round trip is not decided",
